@@ -36,7 +36,8 @@ RULE = ("client streams built from greeting/auth/request/data fields with mutati
         "(stream, config, cuts, schedule)")
 ASSUMPTIONS = ["lib/driver.py interprets commands like proxy/server.py",
                "the socks5_auth hook is answered by a byte-exact comparison with the configured pair",
-               "RSV != 0 and RFC 1929 VER != 1 may be either rejected or tolerated (RFC binds only the client)"]
+               "RFC 1929 sub-negotiation VER != 1 may be either rejected or tolerated; a request with RSV != 0 must be "
+               "rejected (RFC 1928 section 4: reserved fields must be X'00'; 'parsed exactly')"]
 LEVEL_TEXT = ("generated-input search: the real Socks5Proxy layer is run on ~3e5 generated streams/schedules per quick "
               "run and compared with an independent acceptor model; all segmentations of 4 short canonical handshakes "
               "are enumerated exhaustively. No proof beyond the explored inputs.")
